@@ -325,6 +325,10 @@ class Prober:
         if e is not None:
             raise ExtractionError("probe unmerge raised %s: %s" % (type(e).__name__, e))
         st = self.steps_of(tr.trace, env, imp)
+        # looking a graph up (cast_graph: an existence assertion, no write) is not part of the plan of unmerge_adm; whether the
+        # result DEPENDS on what is stored under the unmerged id is probed behaviourally (unmerge_source_probe)
+        self.unmerge_lookups = [t for k, _, t in st if k == "g" and t.startswith(".assertExists")]
+        st = [x for x in st if not (x[0] == "g" and x[2].startswith(".assertExists"))]
         if any(k == "g" for k, _, _ in st):
             raise ExtractionError("unmerge_adm makes whole-graph calls: %r" % (st,))
         s1 = [t for k, nid, t in st if nid == "s1" and k == "n"]
@@ -362,6 +366,38 @@ class Prober:
             raise ExtractionError("unmerge_adm deletes %r, not the one element only the unmerged model contributed" % ([st[i][1] for i in dels],))
         last_s1 = max(i for i, (k, nid, _) in enumerate(st) if nid == "s1")
         return plan, dels[0] > last_s1
+
+    def unmerge_source_probe(self):
+        """unmerge_adm is given a graph ID: does its result depend on what the store holds under that id NOW?  The model merged
+        as X is, before the unmerge: left alone / an element retired in place / reloaded under its id with other elements /
+        an element added / deleted from the store.  Returns the variants whose combined model differs from 'left alone'."""
+        L = self.L
+        X = {"id": GX, "nodes": [_node("x1", cd=_cap("primary")), _node("x2"), _node("s1", ld=_lab("primary"))],
+             "edges": [["x1", "s1", {"Class": "connects"}], ["x1", "x2", {"Class": "has"}]]}
+        Y = {"id": GY, "nodes": [_node("s1"), _node("y1", ld=_lab("d2"))], "edges": [["s1", "y1", {"Class": "connects"}]]}
+        X2 = {"id": GX, "nodes": [_node("s1"), _node("x9", cd=_cap("primary"))], "edges": [["x9", "s1", {"Class": "connects"}]]}
+        variants = [("unchanged", None), ("element-retired", ("delnode", "x2")), ("reloaded-with-other-elements", ("replace", X2)),
+                    ("element-added", ("addnode", _node("y1") + ["x1"])), ("shared-element-retired", ("delnode", "s1")),
+                    ("deleted", ("gone", None))]
+        out, ref = [], None
+        for order in ((GX, GY), (GY, GX)):
+            for name, ed in variants:
+                imp, src, cbm = self.session([X, Y])
+                for g in order:
+                    cbm.merge_adm(adm=src[g])
+                if ed is not None:
+                    L.apply_edit(imp, GX, ed[0], ed[1])
+                try:
+                    cbm.unmerge_adm(graph_id=GX)
+                    got = ("ok", L.snapshot(imp, CBM))
+                except Exception as e:
+                    got = (type(e).__name__, L.snapshot(imp, CBM))
+                if ed is None:
+                    ref = got
+                elif got != ref and name not in out:
+                    out.append(name)
+        L.fresh_store()
+        return out
 
     def snap_plans(self, tr):
         X = {"id": GX, "nodes": [_node("x1"), _node("x2")], "edges": [["x1", "x2", {"Class": "has"}]]}
@@ -535,6 +571,7 @@ def generate():
     observed = {"mergeEmpty": list(plan_empty), "mergeNonEmpty": list(plan_non), "unmergeNode": getattr(p, "observed_unmerge_order", None)}
     plan_empty, plan_non = canon_commuting(plan_empty), canon_commuting(plan_non)
     rekey, take, unm, prov, policy = p.tables()
+    src_dep = p.unmerge_source_probe()
     names = {}
     for k in ("labProp", "capProp", "provProp", "provField", "graphIdProp"):
         v = sorted(p.names.get(k, []))
@@ -558,6 +595,9 @@ def generate():
     b.append("    unmergeDeleteAfter := %s," % ("true" if del_after else "false"))
     b.append("    snapshot := %s," % lean_list(snap))
     b.append("    rollback := %s }\n" % lean_list(roll))
+    b.append("/-- `unmerge_adm(graph_id)` gives the same combined model whatever the store holds under that id at the time (the merged model "
+             "left alone / an element retired / reloaded with other elements / an element added / deleted): observed -/")
+    b.append("def unmergeIgnoresSourceModel : Bool := %s\n" % ("true" if not src_dep else "false"))
     b.append("/-- `rewrite_delegations(real_adm_id = \"G\")` on every shape of delegation property (details are the token `@`) -/")
     rows = []
     for sh, out, err in dedup(rekey):
@@ -584,4 +624,5 @@ def generate():
     return {"changed": changed, "names": names, "requireAdm": require, "mergeEmpty": plan_empty, "mergeNonEmpty": plan_non,
             "unmergeNode": un_plan, "unmergeDeleteAfter": del_after, "snapshot": snap, "rollback": roll,
             "rows": {"rekey": len(dedup(rekey)), "take": len(dedup(take)), "unmergeDeleg": len(dedup(unm)), "prov": len(prov)},
-            "mergeNodesPolicy": dict(policy), "observed_order": observed}
+            "mergeNodesPolicy": dict(policy), "observed_order": observed, "unmergeDependsOnSourceWhen": src_dep,
+            "unmergeLookups": getattr(p, "unmerge_lookups", [])}
